@@ -26,11 +26,12 @@ class TimeShim(object):
     def time(self):
         return self._clock.now
 
+    # the three clocks tick together but have different origins, as the real ones do: mixing them in one subtraction is a bug
     def monotonic(self):
-        return self._clock.now
+        return self._clock.now - 987654.25
 
     def perf_counter(self):
-        return self._clock.now
+        return self._clock.now - 999000.5
 
     def sleep(self, dt):
         self._clock.advance(dt)
